@@ -93,6 +93,17 @@ def run(ck: Check, prog: Program) -> None:
                 n.ast.value.func.attr == 'setdefault' and 'calls' in norm(n.ast.value.func.value):
             stub_vars |= assigned_names(n)
     if not stub_vars:
+        # the table of recorded calls is filled, but what is called to record is not what the table holds (the result of
+        # `calls[endpoint].setdefault(key, …)` is dropped): the recorder of a LATER patch for the same (endpoint, method) never gets there
+        dropped = [n for n in cfg.stmt_nodes() if isinstance(n.ast, ast.Expr) and isinstance(n.ast.value, ast.Call) and
+                   isinstance(n.ast.value.func, ast.Attribute) and n.ast.value.func.attr == 'setdefault' and 'calls' in norm(n.ast.value.func.value)]
+        if dropped:
+            ck.ob('RECORD-BEFORE-REPLY', '_match_request records the call on the recorder kept in the table of recorded calls', False)
+            ck.finding('RECORD-BEFORE-REPLY', mr.qualname, 'the recorder that is called is not the one kept in `calls`', mr.module.rel, dropped[0].line,
+                       f'`{norm(dropped[0].ast)[:90]}` drops what setdefault returns: the call is recorded on another object than the one `calls` holds '
+                       f'for this (endpoint, method) — with two patches for one method (round-robin, replace, once + another) the calls answered by '
+                       f'the later patch are missing from `mocker.calls`')
+            return
         raise AnalysisError(f'{mr.qualname}: call-recording stub not found')
     rec_nodes = {n.id for n in cfg.stmt_nodes() for c in calls_in(n) if isinstance(c.func, ast.Name) and c.func.id in stub_vars}
 
